@@ -218,229 +218,232 @@ def run(ck):
     R6 = ck.rule('R19.6', "timestr / timestr_approx split seconds with divmod by 86400, 3600, 60 "
                  "in this order and label the quotients d, h, m and the remainder s", 'M0', 6)
 
-    # ---- constants
-    tc = prog.module('utils.tconst')
-    consts = {}
-    for nm, want in (('SEC_PER_MIN', 60), ('SEC_PER_HOUR', 3600), ('SEC_PER_DAY', 86400)):
-        try:
-            v = fold(prog, mod, ast.Name(id=nm, ctx=ast.Load()))
-        except Unfoldable as err:
-            v = f"<unfoldable: {err}>"
-        consts[nm] = v
-        ck.ob(R1, f"utils.tconst :: {nm}", v == want and not isinstance(v, bool),
-              f"{nm} = {v}" + ('' if v == want else f" (must be {want})"), None,
-              f"{tc.path}:1")
-
-    # ---- patterns
-    pats = compiled_patterns(prog, mod)
-    ck.need(R1, len(pats) >= 2, "the two duration patterns were not found in utils/timeunits.py")
-    trad = iso = None
-    for nm, (pat, flags, st) in pats.items():
-        tree = parse_regex(pat, flags)
-        groups, ws, state = _groups(tree)
-        if 'P' in state.get('literals', []):
-            iso = (nm, pat, flags, st, groups, ws, state)
-        else:
-            trad = (nm, pat, flags, st, groups, ws, state)
-    ck.need(R1, trad and iso, "could not tell the traditional and the ISO pattern apart")
-
-    conv = prog.func(f"{TU}:_convert")
-    cfg = ck.cfg(conv.fid, 'M0')
-    # the scale tuple zipped with reversed(match.groups())
-    scale = None
-    zip_node = None
-    for n in own_nodes(conv.node):
-        if isinstance(n, ast.Call) and call_name(n) == 'zip' and len(n.args) == 2:
-            a0 = n.args[0]
-            if isinstance(a0, ast.Call) and call_name(a0) == 'reversed' and \
-                    'groups()' in norm(a0.args[0]):
-                try:
-                    scale = tuple(fold(prog, mod, n.args[1]))
-                except Unfoldable as err:
-                    ck.need(R1, False, f"scale tuple not foldable: {err}")
-                zip_node = n
-    ck.need(R1, scale is not None, "_convert does not zip reversed(match.groups()) with a scale "
-            "tuple (unrecognised structure)")
-
-    for label, spec in (('traditional', trad), ('ISO', iso)):
-        nm, pat, flags, st, groups, ws, state = spec
-        groups = sorted(groups, key=lambda g: g['group'])
-        rev = list(reversed(groups))
-        ok_len = len(scale) >= len(groups)
-        ck.ob(R1, f"{TU}:{nm} :: group count", ok_len and len(groups) == (4 if label == 'traditional' else 6),
-              f"{len(groups)} capturing groups, scale tuple has {len(scale)} entries", None,
-              f"{mod.path}:{st.lineno}")
-        for g, sc in zip(rev, scale):
-            unit = g['unit']
-            if label == 'traditional':
-                want = EXPECT_TRAD.get((unit or '').lower(), 'unknown unit')
-            else:
-                want = EXPECT_ISO.get((unit, g['after_T']), 'unknown unit')
-            ok = (sc == want) and (sc is None) == (want is None) and g['group_optional'] \
-                and _number_ok(g['number'])
-            ck.ob(R1, f"{TU}:{nm} :: group {g['group']} unit {unit!r}{' (time)' if g['after_T'] else ''}",
-                  ok, f"unit {unit!r} is scaled by {sc}" + ('' if sc == want else f" (must be {want})")
-                  + ('' if g['group_optional'] else '; the element is not optional')
-                  + ('' if _number_ok(g['number']) else '; number group is not digits[.,]digits'),
-                  None, f"{mod.path}:{st.lineno}")
-        if label == 'traditional':
-            sgroup = [g for g in groups if (g['unit'] or '').lower() == 's']
-            ok = len(sgroup) == 1 and sgroup[0]['unit_optional'] and \
-                all(not g['unit_optional'] for g in groups if g is not sgroup[0])
-            ck.ob(R1, f"{TU}:{nm} :: optional 's'", ok,
-                  "only the seconds' unit letter may be omitted" if ok else
-                  "the unit letter is optional for the wrong element(s)", None,
-                  f"{mod.path}:{st.lineno}")
-            order = [(g['unit'] or '').lower() for g in groups]
-            ck.ob(R1, f"{TU}:{nm} :: unit order", order == ['d', 'h', 'm', 's'],
-                  f"units appear in the order {order}", None, f"{mod.path}:{st.lineno}")
-        else:
-            order = [(g['unit'], g['after_T']) for g in groups]
-            ck.ob(R1, f"{TU}:{nm} :: unit order",
-                  order == [('Y', False), ('M', False), ('D', False), ('H', True), ('M', True), ('S', True)],
-                  f"units appear in the order {order}", None, f"{mod.path}:{st.lineno}")
-            ck.ob(R1, f"{TU}:{nm} :: no optional unit letters", not any(g['unit_optional'] for g in groups),
-                  "ISO unit designators are mandatory", None, f"{mod.path}:{st.lineno}")
-        # flags
-        fl = re.RegexFlag(flags)
-        if label == 'traditional':
-            okf = bool(fl & re.ASCII) and bool(fl & re.IGNORECASE) and bool(fl & re.VERBOSE)
-            ck.ob(R2, f"{TU}:{nm} :: flags", okf, f"flags = {fl!r}", None, f"{mod.path}:{st.lineno}")
-            inner_ws = all(g['ws_before_unit'] for g in groups) and ws >= 2 * len(groups)
-            ck.ob(R2, f"{TU}:{nm} :: inner whitespace", inner_ws,
-                  f"{ws} whitespace tokens; whitespace allowed between number and unit: "
-                  f"{[g['ws_before_unit'] for g in groups]}", None, f"{mod.path}:{st.lineno}")
-        else:
-            okf = bool(fl & re.ASCII) and not (fl & re.IGNORECASE) and bool(fl & re.VERBOSE)
-            ck.ob(R2, f"{TU}:{nm} :: flags", okf, f"flags = {fl!r} (must be case-sensitive)",
-                  None, f"{mod.path}:{st.lineno}")
-            ck.ob(R2, f"{TU}:{nm} :: no inner whitespace",
-                  ws <= 2 and not any(g['ws_before_unit'] for g in groups),
-                  f"{ws} whitespace tokens (only leading/trailing allowed)", None,
-                  f"{mod.path}:{st.lineno}")
-    # None scale -> raise
-    raises = nodes_where(cfg, lambda n: isinstance(n.ast, ast.Raise), kinds=('stmt',))
-    loop_var = None
-    for n in cfg.nodes:
-        if n.kind == 'for' and zip_node is not None and any(x is zip_node for x in walk_shallow(n.ast.iter)):
-            tgt = n.ast.target
-            if isinstance(tgt, ast.Tuple) and len(tgt.elts) == 2:
-                loop_var = (norm(tgt.elts[0]), norm(tgt.elts[1]))
-    ck.need(R1, loop_var is not None, "the zip loop of _convert was not recognised")
-    vname, sname = loop_var
-    none_raise = [r for r in raises if cfg.has_guard(r, f'{sname} is None', True)
-                  and r.kinds == {'N:ValueError'}]
-    ck.ob(R1, f"{conv.fid} :: None scale raises", bool(none_raise),
-          "a present element whose scale is None (calendar month/year) raises ValueError"
-          if none_raise else f"no `raise ValueError` under `{sname} is None`", conv, conv.node)
-    # the accumulation uses num * scale
-    acc = nodes_where(cfg, lambda n: isinstance(n.ast, ast.AugAssign) and isinstance(n.ast.op, ast.Add)
-                      and isinstance(n.ast.value, ast.BinOp) and isinstance(n.ast.value.op, ast.Mult)
-                      and sname in (norm(n.ast.value.left), norm(n.ast.value.right)))
-    ck.ob(R1, f"{conv.fid} :: accumulation", len(acc) == 1,
-          "result += num * scale_factor" if len(acc) == 1 else
-          "the result is not accumulated as number * scale factor", conv,
-          acc[0].ast if acc else conv.node)
-
-    # ---- R19.2 fullmatch
-    scope_ = [conv] + _module_callees(prog, mod, conv)      # the matching may live in a small helper
-    fm = [c for f_ in scope_ for c in own_nodes(f_.node) if isinstance(c, ast.Call)
-          and isinstance(c.func, ast.Attribute) and c.func.attr in ('fullmatch', 'match', 'search')]
-    ok = bool(fm) and all(c.func.attr == 'fullmatch' for c in fm)
-    pats_used = set()
-    for f_ in scope_:
-        for n in own_nodes(f_.node):
-            if isinstance(n, ast.Name) and n.id in pats:
-                pats_used.add(n.id)
-    ck.ob(R2, f"{conv.fid} :: whole-string match", ok and pats_used == {trad[0], iso[0]},
-          f"method(s) {[c.func.attr for c in fm]} applied to {sorted(pats_used)}", conv,
-          fm[0] if fm else conv.node)
-
-    # ---- R19.3 decided layout-independently: the element loop and the code after it are run on
-    # every combination of elements (absent / 0 / integer / fraction with '.' / fraction with ','),
-    # for the 4 traditional and the 6 ISO groups, and compared with the documented result
-    from sa.minieval import MiniEval
-    import itertools as _it
-    loop_run_ok = None
-    try:
-        pname_ = conv.node.args.args[0].arg
-        body_ = list(conv.node.body)
-        while body_:
-            st0 = body_[0]
-            if isinstance(st0, ast.Assert) or (isinstance(st0, ast.Expr) and isinstance(st0.value, ast.Constant)):
-                body_.pop(0)
-            elif isinstance(st0, ast.If) and st0.orelse and st0.body and isinstance(st0.body[-1], ast.Raise) \
-                    and any(isinstance(x, ast.Name) and x.id == pname_ for x in ast.walk(st0.test)):
-                body_ = list(st0.orelse) + body_[1:]    # `if no match: raise ... else: <the rest>`
-            elif any(isinstance(x, ast.Name) and x.id == pname_ for x in ast.walk(st0)):
-                body_.pop(0)
-            else:
-                break
-        groups_text = norm(zip_node.args[0].args[0])        # <match>.groups()
-        consts_ = {}
-        for nm_ in {x.id for x in ast.walk(conv.node) if isinstance(x, ast.Name)}:
+    with ck.section('R19.1'):
+        # ---- constants
+        tc = prog.module('utils.tconst')
+        consts = {}
+        for nm, want in (('SEC_PER_MIN', 60), ('SEC_PER_HOUR', 3600), ('SEC_PER_DAY', 86400)):
             try:
-                v_ = fold(prog, mod, ast.Name(id=nm_, ctx=ast.Load()))
-            except Exception:
-                continue
-            if isinstance(v_, (int, float, tuple, list)) or v_ is None:
-                consts_[nm_] = v_
-        bad_ = []
-        ncase_ = 0
-        UNIT = {4: (86400, 3600, 60, 1), 6: (None, None, 86400, 3600, 60, 1)}
-        for ngroups, vals in ((4, (None, '0', '2', '1.5', '1,5')), (6, (None, '0', '3', '2.5'))):
-            for combo in _it.product(vals, repeat=ngroups):
-                if ngroups == 6 and sum(1 for c_ in combo if c_ is not None) > 3:
-                    continue
-                env = dict(consts_)
-                env[groups_text] = tuple(combo)
-                res = MiniEval(R3, env).run(body_)
-                ncase_ += 1
-                ck.abstract_cases += 1
-                present = [(v_, u_) for v_, u_ in zip(combo, UNIT[ngroups]) if v_ is not None]
-                want = None
-                if not present:
-                    want = ('raise', 'ValueError')
-                else:
-                    total = 0.0
-                    for i_, (v_, u_) in enumerate(present):
-                        frac = ('.' in v_) or (',' in v_)
-                        if frac and i_ != len(present) - 1:
-                            want = ('raise', 'ValueError')
-                            break
-                        num = float(v_.replace(',', '.'))
-                        if num != 0.0 and u_ is None:
-                            want = ('raise', 'ValueError')
-                            break
-                        total += num * (u_ or 0)
-                    if want is None:
-                        want = ('return', total)
-                good = res == want or (res[0] == want[0] == 'return' and isinstance(res[1], (int, float))
-                                       and abs(res[1] - want[1]) < 1e-9)
-                if not good and len(bad_) < 4:
-                    bad_.append(f"elements {combo}: {res}, documented {want}")
-        loop_run_ok = not bad_
-        ck.ob(R3, f"{conv.fid} :: abstract run of the element loop", loop_run_ok,
-              f"evaluated on {ncase_} element combinations: sum of value x unit; a fraction only in the "
-              f"smallest present unit; no element / a non-zero year or month raises" if loop_run_ok
-              else "; ".join(bad_), conv, conv.node)
-    except Exception as err:
-        ck.note(f"R19.3 abstract run not applicable: {type(err).__name__}: {err}")
+                v = fold(prog, mod, ast.Name(id=nm, ctx=ast.Load()))
+            except Unfoldable as err:
+                v = f"<unfoldable: {err}>"
+            consts[nm] = v
+            ck.ob(R1, f"utils.tconst :: {nm}", v == want and not isinstance(v, bool),
+                  f"{nm} = {v}" + ('' if v == want else f" (must be {want})"), None,
+                  f"{tc.path}:1")
 
-    # ---- R19.3 (the same logic read off one particular layout; evaluated when the run above is not
-    # applicable or failed, to name the offending statement)
-    if not loop_run_ok:
-        _r19_3_shape(ck, R3, conv, cfg, raises, zip_node, vname, trad, iso)
-    nomatch = []
-    for f_ in [conv] + _module_callees(prog, mod, conv):
-        g_ = ck.cfg(f_.fid, 'M0')
-        nomatch += [r for r in nodes_where(g_, lambda n: isinstance(n.ast, ast.Raise), kinds=('stmt',))
-                    if r.kinds == {'N:ValueError'} and (f_ is not conv or
-                                                        any('match' in t for t, p in g_.guard_texts(r)))]
-    ck.ob(R3, f"{conv.fid} :: no match raises", bool(nomatch),
-          "a string matching neither pattern raises ValueError" if nomatch else
-          "no raise for a string that matches neither pattern", conv, conv.node)
-    _rest_of_c19(ck, prog, mod, R4, R5, R6)
+        # ---- patterns
+        pats = compiled_patterns(prog, mod)
+        ck.need(R1, len(pats) >= 2, "the two duration patterns were not found in utils/timeunits.py")
+        trad = iso = None
+        for nm, (pat, flags, st) in pats.items():
+            tree = parse_regex(pat, flags)
+            groups, ws, state = _groups(tree)
+            if 'P' in state.get('literals', []):
+                iso = (nm, pat, flags, st, groups, ws, state)
+            else:
+                trad = (nm, pat, flags, st, groups, ws, state)
+        ck.need(R1, trad and iso, "could not tell the traditional and the ISO pattern apart")
+
+        conv = prog.func(f"{TU}:_convert")
+        cfg = ck.cfg(conv.fid, 'M0')
+        # the scale tuple zipped with reversed(match.groups())
+        scale = None
+        zip_node = None
+        for n in own_nodes(conv.node):
+            if isinstance(n, ast.Call) and call_name(n) == 'zip' and len(n.args) == 2:
+                a0 = n.args[0]
+                if isinstance(a0, ast.Call) and call_name(a0) == 'reversed' and \
+                        'groups()' in norm(a0.args[0]):
+                    try:
+                        scale = tuple(fold(prog, mod, n.args[1]))
+                    except Unfoldable as err:
+                        ck.need(R1, False, f"scale tuple not foldable: {err}")
+                    zip_node = n
+        ck.need(R1, scale is not None, "_convert does not zip reversed(match.groups()) with a scale "
+                "tuple (unrecognised structure)")
+
+        for label, spec in (('traditional', trad), ('ISO', iso)):
+            nm, pat, flags, st, groups, ws, state = spec
+            groups = sorted(groups, key=lambda g: g['group'])
+            rev = list(reversed(groups))
+            ok_len = len(scale) >= len(groups)
+            ck.ob(R1, f"{TU}:{nm} :: group count", ok_len and len(groups) == (4 if label == 'traditional' else 6),
+                  f"{len(groups)} capturing groups, scale tuple has {len(scale)} entries", None,
+                  f"{mod.path}:{st.lineno}")
+            for g, sc in zip(rev, scale):
+                unit = g['unit']
+                if label == 'traditional':
+                    want = EXPECT_TRAD.get((unit or '').lower(), 'unknown unit')
+                else:
+                    want = EXPECT_ISO.get((unit, g['after_T']), 'unknown unit')
+                ok = (sc == want) and (sc is None) == (want is None) and g['group_optional'] \
+                    and _number_ok(g['number'])
+                ck.ob(R1, f"{TU}:{nm} :: group {g['group']} unit {unit!r}{' (time)' if g['after_T'] else ''}",
+                      ok, f"unit {unit!r} is scaled by {sc}" + ('' if sc == want else f" (must be {want})")
+                      + ('' if g['group_optional'] else '; the element is not optional')
+                      + ('' if _number_ok(g['number']) else '; number group is not digits[.,]digits'),
+                      None, f"{mod.path}:{st.lineno}")
+            if label == 'traditional':
+                sgroup = [g for g in groups if (g['unit'] or '').lower() == 's']
+                ok = len(sgroup) == 1 and sgroup[0]['unit_optional'] and \
+                    all(not g['unit_optional'] for g in groups if g is not sgroup[0])
+                ck.ob(R1, f"{TU}:{nm} :: optional 's'", ok,
+                      "only the seconds' unit letter may be omitted" if ok else
+                      "the unit letter is optional for the wrong element(s)", None,
+                      f"{mod.path}:{st.lineno}")
+                order = [(g['unit'] or '').lower() for g in groups]
+                ck.ob(R1, f"{TU}:{nm} :: unit order", order == ['d', 'h', 'm', 's'],
+                      f"units appear in the order {order}", None, f"{mod.path}:{st.lineno}")
+            else:
+                order = [(g['unit'], g['after_T']) for g in groups]
+                ck.ob(R1, f"{TU}:{nm} :: unit order",
+                      order == [('Y', False), ('M', False), ('D', False), ('H', True), ('M', True), ('S', True)],
+                      f"units appear in the order {order}", None, f"{mod.path}:{st.lineno}")
+                ck.ob(R1, f"{TU}:{nm} :: no optional unit letters", not any(g['unit_optional'] for g in groups),
+                      "ISO unit designators are mandatory", None, f"{mod.path}:{st.lineno}")
+            # flags
+            fl = re.RegexFlag(flags)
+            if label == 'traditional':
+                okf = bool(fl & re.ASCII) and bool(fl & re.IGNORECASE) and bool(fl & re.VERBOSE)
+                ck.ob(R2, f"{TU}:{nm} :: flags", okf, f"flags = {fl!r}", None, f"{mod.path}:{st.lineno}")
+                inner_ws = all(g['ws_before_unit'] for g in groups) and ws >= 2 * len(groups)
+                ck.ob(R2, f"{TU}:{nm} :: inner whitespace", inner_ws,
+                      f"{ws} whitespace tokens; whitespace allowed between number and unit: "
+                      f"{[g['ws_before_unit'] for g in groups]}", None, f"{mod.path}:{st.lineno}")
+            else:
+                okf = bool(fl & re.ASCII) and not (fl & re.IGNORECASE) and bool(fl & re.VERBOSE)
+                ck.ob(R2, f"{TU}:{nm} :: flags", okf, f"flags = {fl!r} (must be case-sensitive)",
+                      None, f"{mod.path}:{st.lineno}")
+                ck.ob(R2, f"{TU}:{nm} :: no inner whitespace",
+                      ws <= 2 and not any(g['ws_before_unit'] for g in groups),
+                      f"{ws} whitespace tokens (only leading/trailing allowed)", None,
+                      f"{mod.path}:{st.lineno}")
+        # None scale -> raise
+        raises = nodes_where(cfg, lambda n: isinstance(n.ast, ast.Raise), kinds=('stmt',))
+        loop_var = None
+        for n in cfg.nodes:
+            if n.kind == 'for' and zip_node is not None and any(x is zip_node for x in walk_shallow(n.ast.iter)):
+                tgt = n.ast.target
+                if isinstance(tgt, ast.Tuple) and len(tgt.elts) == 2:
+                    loop_var = (norm(tgt.elts[0]), norm(tgt.elts[1]))
+        ck.need(R1, loop_var is not None, "the zip loop of _convert was not recognised")
+        vname, sname = loop_var
+        none_raise = [r for r in raises if cfg.has_guard(r, f'{sname} is None', True)
+                      and r.kinds == {'N:ValueError'}]
+        ck.ob(R1, f"{conv.fid} :: None scale raises", bool(none_raise),
+              "a present element whose scale is None (calendar month/year) raises ValueError"
+              if none_raise else f"no `raise ValueError` under `{sname} is None`", conv, conv.node)
+        # the accumulation uses num * scale
+        acc = nodes_where(cfg, lambda n: isinstance(n.ast, ast.AugAssign) and isinstance(n.ast.op, ast.Add)
+                          and isinstance(n.ast.value, ast.BinOp) and isinstance(n.ast.value.op, ast.Mult)
+                          and sname in (norm(n.ast.value.left), norm(n.ast.value.right)))
+        ck.ob(R1, f"{conv.fid} :: accumulation", len(acc) == 1,
+              "result += num * scale_factor" if len(acc) == 1 else
+              "the result is not accumulated as number * scale factor", conv,
+              acc[0].ast if acc else conv.node)
+
+    with ck.section('R19.2'):
+        # ---- R19.2 fullmatch
+        scope_ = [conv] + _module_callees(prog, mod, conv)      # the matching may live in a small helper
+        fm = [c for f_ in scope_ for c in own_nodes(f_.node) if isinstance(c, ast.Call)
+              and isinstance(c.func, ast.Attribute) and c.func.attr in ('fullmatch', 'match', 'search')]
+        ok = bool(fm) and all(c.func.attr == 'fullmatch' for c in fm)
+        pats_used = set()
+        for f_ in scope_:
+            for n in own_nodes(f_.node):
+                if isinstance(n, ast.Name) and n.id in pats:
+                    pats_used.add(n.id)
+        ck.ob(R2, f"{conv.fid} :: whole-string match", ok and pats_used == {trad[0], iso[0]},
+              f"method(s) {[c.func.attr for c in fm]} applied to {sorted(pats_used)}", conv,
+              fm[0] if fm else conv.node)
+
+    with ck.section('R19.3'):
+        # ---- R19.3 decided layout-independently: the element loop and the code after it are run on
+        # every combination of elements (absent / 0 / integer / fraction with '.' / fraction with ','),
+        # for the 4 traditional and the 6 ISO groups, and compared with the documented result
+        from sa.minieval import MiniEval
+        import itertools as _it
+        loop_run_ok = None
+        try:
+            pname_ = conv.node.args.args[0].arg
+            body_ = list(conv.node.body)
+            while body_:
+                st0 = body_[0]
+                if isinstance(st0, ast.Assert) or (isinstance(st0, ast.Expr) and isinstance(st0.value, ast.Constant)):
+                    body_.pop(0)
+                elif isinstance(st0, ast.If) and st0.orelse and st0.body and isinstance(st0.body[-1], ast.Raise) \
+                        and any(isinstance(x, ast.Name) and x.id == pname_ for x in ast.walk(st0.test)):
+                    body_ = list(st0.orelse) + body_[1:]    # `if no match: raise ... else: <the rest>`
+                elif any(isinstance(x, ast.Name) and x.id == pname_ for x in ast.walk(st0)):
+                    body_.pop(0)
+                else:
+                    break
+            groups_text = norm(zip_node.args[0].args[0])        # <match>.groups()
+            consts_ = {}
+            for nm_ in {x.id for x in ast.walk(conv.node) if isinstance(x, ast.Name)}:
+                try:
+                    v_ = fold(prog, mod, ast.Name(id=nm_, ctx=ast.Load()))
+                except Exception:
+                    continue
+                if isinstance(v_, (int, float, tuple, list)) or v_ is None:
+                    consts_[nm_] = v_
+            bad_ = []
+            ncase_ = 0
+            UNIT = {4: (86400, 3600, 60, 1), 6: (None, None, 86400, 3600, 60, 1)}
+            for ngroups, vals in ((4, (None, '0', '2', '1.5', '1,5')), (6, (None, '0', '3', '2.5'))):
+                for combo in _it.product(vals, repeat=ngroups):
+                    if ngroups == 6 and sum(1 for c_ in combo if c_ is not None) > 3:
+                        continue
+                    env = dict(consts_)
+                    env[groups_text] = tuple(combo)
+                    res = MiniEval(R3, env).run(body_)
+                    ncase_ += 1
+                    ck.abstract_cases += 1
+                    present = [(v_, u_) for v_, u_ in zip(combo, UNIT[ngroups]) if v_ is not None]
+                    want = None
+                    if not present:
+                        want = ('raise', 'ValueError')
+                    else:
+                        total = 0.0
+                        for i_, (v_, u_) in enumerate(present):
+                            frac = ('.' in v_) or (',' in v_)
+                            if frac and i_ != len(present) - 1:
+                                want = ('raise', 'ValueError')
+                                break
+                            num = float(v_.replace(',', '.'))
+                            if num != 0.0 and u_ is None:
+                                want = ('raise', 'ValueError')
+                                break
+                            total += num * (u_ or 0)
+                        if want is None:
+                            want = ('return', total)
+                    good = res == want or (res[0] == want[0] == 'return' and isinstance(res[1], (int, float))
+                                           and abs(res[1] - want[1]) < 1e-9)
+                    if not good and len(bad_) < 4:
+                        bad_.append(f"elements {combo}: {res}, documented {want}")
+            loop_run_ok = not bad_
+            ck.ob(R3, f"{conv.fid} :: abstract run of the element loop", loop_run_ok,
+                  f"evaluated on {ncase_} element combinations: sum of value x unit; a fraction only in the "
+                  f"smallest present unit; no element / a non-zero year or month raises" if loop_run_ok
+                  else "; ".join(bad_), conv, conv.node)
+        except Exception as err:
+            ck.note(f"R19.3 abstract run not applicable: {type(err).__name__}: {err}")
+
+        # ---- R19.3 (the same logic read off one particular layout; evaluated when the run above is not
+        # applicable or failed, to name the offending statement)
+        if not loop_run_ok:
+            _r19_3_shape(ck, R3, conv, cfg, raises, zip_node, vname, trad, iso)
+        nomatch = []
+        for f_ in [conv] + _module_callees(prog, mod, conv):
+            g_ = ck.cfg(f_.fid, 'M0')
+            nomatch += [r for r in nodes_where(g_, lambda n: isinstance(n.ast, ast.Raise), kinds=('stmt',))
+                        if r.kinds == {'N:ValueError'} and (f_ is not conv or
+                                                            any('match' in t for t, p in g_.guard_texts(r)))]
+        ck.ob(R3, f"{conv.fid} :: no match raises", bool(nomatch),
+              "a string matching neither pattern raises ValueError" if nomatch else
+              "no raise for a string that matches neither pattern", conv, conv.node)
+        _rest_of_c19(ck, prog, mod, R4, R5, R6)
 
 
 def _module_callees(prog, mod, fi):
@@ -535,129 +538,132 @@ def _r19_3_shape(ck, R3, conv, cfg, raises, zip_node, vname, trad, iso):
 
 def _rest_of_c19(ck, prog, mod, R4, R5, R6):
     # ---- R19.4 time_period
-    tp = prog.func(f"{TU}:time_period")
-    g = ck.cfg(tp.fid, 'M0')
-    p = tp.node.args.args[0].arg
-    # layout-independent decision: abstract run of the case split
-    from sa.minieval import MiniEval
-    tp_run_ok = None
-    try:
-        bad_ = []
-        for val_, want_ in ((None, ('return', None)), (5, ('return', 5.0)), (0, ('return', 0.0)),
-                            (-3, ('return', 0.0)), (2.5, ('return', 2.5)), (-0.5, ('return', 0.0)),
-                            ('1m30s', ('return', ('CONVERTED', '1m30s'))),
-                            # strings that happen to be Python float literals are still durations
-                            ('1e3', ('return', ('CONVERTED', '1e3'))), ('-5', ('return', ('CONVERTED', '-5'))),
-                            ('inf', ('return', ('CONVERTED', 'inf'))), ('12', ('return', ('CONVERTED', '12'))),
-                            ([1], ('raise', 'TypeError')),
-                            ((1, 2), ('raise', 'TypeError'))):
-            res = MiniEval(R4, {p: val_, 'convert': lambda s_: ('CONVERTED', s_)}).run(tp.node.body)
-            ck.abstract_cases += 1
-            if res != want_ or (res[0] == 'return' and type(res[1]) is not type(want_[1])):
-                bad_.append(f"time_period({val_!r}) -> {res}, documented {want_}")
-        tp_run_ok = not bad_
-        ck.ob(R4, f"{tp.fid} :: abstract run", tp_run_ok,
-              "None -> None; int -> float; negative -> 0.0; str -> convert(str); other types -> TypeError "
-              "(13 representative arguments)" if tp_run_ok else "; ".join(bad_[:3]), tp, tp.node)
-    except Exception as err:
-        ck.note(f"R19.4 abstract run not applicable: {err}")
-    rets = return_nodes(g)
-    r_none = [r for r in rets if g.has_guard(r, f'{p} is None', True) and
-              (r.ast.value is None or is_const(r.ast.value, None))]
-    ck.ob(R4, f"{tp.fid} :: None", bool(r_none) or bool(tp_run_ok), "None stays None" if r_none else
-          "`None` is not returned as None", tp, tp.node)
-    to_float = nodes_where(g, lambda n: isinstance(n.ast, ast.Assign) and norm(n.ast.value) == f'float({p})'
-                           and g.has_guard(n, f'isinstance({p}, int)', True))
-    ck.ob(R4, f"{tp.fid} :: int", bool(to_float) or any(
-          g.has_guard(r, f'isinstance({p}, (int, float))', True) for r in rets) or bool(tp_run_ok),
-          "an int is converted to float and takes the float branch", tp, tp.node)
-    r_float = [r for r in rets if g.has_guard(r, f'isinstance({p}, float)', True)
-               or g.has_guard(r, f'isinstance({p}, (int, float))', True)]
-    okfl = bool(r_float) and all(
-        isinstance(r.ast.value, ast.Call) and call_name(r.ast.value) == 'max'
-        and sorted(norm(a) for a in r.ast.value.args) in (sorted(['0.0', p]), sorted(['0.0', f'float({p})']),
-                                                          sorted(['0', p]))
-        for r in r_float)
-    ck.ob(R4, f"{tp.fid} :: float", okfl or bool(tp_run_ok),
-          "a number is clamped with max(0.0, x): negative becomes 0" if okfl else
-          f"the numeric branch returns {[norm(r.ast.value) for r in r_float]}, not max(0.0, x)",
-          tp, r_float[0].ast if r_float else tp.node)
-    r_str = [r for r in rets if g.has_guard(r, f'isinstance({p}, str)', True)]
-    okst = bool(r_str) and all(isinstance(r.ast.value, ast.Call) and call_name(r.ast.value) == 'convert'
-                               and [norm(a) for a in r.ast.value.args] == [p] for r in r_str)
-    ck.ob(R4, f"{tp.fid} :: str", okst or bool(tp_run_ok), "a string goes through convert()" if okst else
-          "a string is not converted with convert(period)", tp, r_str[0].ast if r_str else tp.node)
-    tr = nodes_where(g, lambda n: isinstance(n.ast, ast.Raise) and n.kinds == {'N:TypeError'},
-                     kinds=('stmt',))
-    fall = g.exit.id in g.reachable() and any(
-        pn.kind != 'stmt' or not isinstance(pn.ast, ast.Return)
-        for pn in [g.nodes[i] for i, _ in g.pred[g.exit.id]])
-    ck.ob(R4, f"{tp.fid} :: other types", (bool(tr) and not fall) or bool(tp_run_ok),
-          "any other type raises TypeError" if tr and not fall else
-          "an unsupported type does not raise TypeError (falls through)", tp, tp.node)
+    with ck.section('R19.4'):
+        tp = prog.func(f"{TU}:time_period")
+        g = ck.cfg(tp.fid, 'M0')
+        p = tp.node.args.args[0].arg
+        # layout-independent decision: abstract run of the case split
+        from sa.minieval import MiniEval
+        tp_run_ok = None
+        try:
+            bad_ = []
+            for val_, want_ in ((None, ('return', None)), (5, ('return', 5.0)), (0, ('return', 0.0)),
+                                (-3, ('return', 0.0)), (2.5, ('return', 2.5)), (-0.5, ('return', 0.0)),
+                                ('1m30s', ('return', ('CONVERTED', '1m30s'))),
+                                # strings that happen to be Python float literals are still durations
+                                ('1e3', ('return', ('CONVERTED', '1e3'))), ('-5', ('return', ('CONVERTED', '-5'))),
+                                ('inf', ('return', ('CONVERTED', 'inf'))), ('12', ('return', ('CONVERTED', '12'))),
+                                ([1], ('raise', 'TypeError')),
+                                ((1, 2), ('raise', 'TypeError'))):
+                res = MiniEval(R4, {p: val_, 'convert': lambda s_: ('CONVERTED', s_)}).run(tp.node.body)
+                ck.abstract_cases += 1
+                if res != want_ or (res[0] == 'return' and type(res[1]) is not type(want_[1])):
+                    bad_.append(f"time_period({val_!r}) -> {res}, documented {want_}")
+            tp_run_ok = not bad_
+            ck.ob(R4, f"{tp.fid} :: abstract run", tp_run_ok,
+                  "None -> None; int -> float; negative -> 0.0; str -> convert(str); other types -> TypeError "
+                  "(13 representative arguments)" if tp_run_ok else "; ".join(bad_[:3]), tp, tp.node)
+        except Exception as err:
+            ck.note(f"R19.4 abstract run not applicable: {err}")
+        rets = return_nodes(g)
+        r_none = [r for r in rets if g.has_guard(r, f'{p} is None', True) and
+                  (r.ast.value is None or is_const(r.ast.value, None))]
+        ck.ob(R4, f"{tp.fid} :: None", bool(r_none) or bool(tp_run_ok), "None stays None" if r_none else
+              "`None` is not returned as None", tp, tp.node)
+        to_float = nodes_where(g, lambda n: isinstance(n.ast, ast.Assign) and norm(n.ast.value) == f'float({p})'
+                               and g.has_guard(n, f'isinstance({p}, int)', True))
+        ck.ob(R4, f"{tp.fid} :: int", bool(to_float) or any(
+              g.has_guard(r, f'isinstance({p}, (int, float))', True) for r in rets) or bool(tp_run_ok),
+              "an int is converted to float and takes the float branch", tp, tp.node)
+        r_float = [r for r in rets if g.has_guard(r, f'isinstance({p}, float)', True)
+                   or g.has_guard(r, f'isinstance({p}, (int, float))', True)]
+        okfl = bool(r_float) and all(
+            isinstance(r.ast.value, ast.Call) and call_name(r.ast.value) == 'max'
+            and sorted(norm(a) for a in r.ast.value.args) in (sorted(['0.0', p]), sorted(['0.0', f'float({p})']),
+                                                              sorted(['0', p]))
+            for r in r_float)
+        ck.ob(R4, f"{tp.fid} :: float", okfl or bool(tp_run_ok),
+              "a number is clamped with max(0.0, x): negative becomes 0" if okfl else
+              f"the numeric branch returns {[norm(r.ast.value) for r in r_float]}, not max(0.0, x)",
+              tp, r_float[0].ast if r_float else tp.node)
+        r_str = [r for r in rets if g.has_guard(r, f'isinstance({p}, str)', True)]
+        okst = bool(r_str) and all(isinstance(r.ast.value, ast.Call) and call_name(r.ast.value) == 'convert'
+                                   and [norm(a) for a in r.ast.value.args] == [p] for r in r_str)
+        ck.ob(R4, f"{tp.fid} :: str", okst or bool(tp_run_ok), "a string goes through convert()" if okst else
+              "a string is not converted with convert(period)", tp, r_str[0].ast if r_str else tp.node)
+        tr = nodes_where(g, lambda n: isinstance(n.ast, ast.Raise) and n.kinds == {'N:TypeError'},
+                         kinds=('stmt',))
+        fall = g.exit.id in g.reachable() and any(
+            pn.kind != 'stmt' or not isinstance(pn.ast, ast.Return)
+            for pn in [g.nodes[i] for i, _ in g.pred[g.exit.id]])
+        ck.ob(R4, f"{tp.fid} :: other types", (bool(tr) and not fall) or bool(tp_run_ok),
+              "any other type raises TypeError" if tr and not fall else
+              "an unsupported type does not raise TypeError (falls through)", tp, tp.node)
 
-    # ---- R19.5
-    cv = prog.func(f"{TU}:convert")
-    hs = handlers_in(cv)
-    ok = bool(hs) and all(handler_reraises(cv, h) for h in hs)
-    gcv = ck.cfg(cv.fid, 'M0')
-    calls = nodes_calling(gcv, '_convert')
-    rdcv = ck.rdefs(cv.fid, 'M0')
+    with ck.section('R19.5'):
+        # ---- R19.5
+        cv = prog.func(f"{TU}:convert")
+        hs = handlers_in(cv)
+        ok = bool(hs) and all(handler_reraises(cv, h) for h in hs)
+        gcv = ck.cfg(cv.fid, 'M0')
+        calls = nodes_calling(gcv, '_convert')
+        rdcv = ck.rdefs(cv.fid, 'M0')
 
-    def _is_conv(r):
-        v = r.ast.value
-        if isinstance(v, ast.Call) and call_name(v) == '_convert':
-            return True
-        if isinstance(v, ast.Name):
-            vals_ = rdcv.value_exprs(r, v.id)
-            return bool(vals_) and all(not isinstance(x, str) and isinstance(x, ast.Call)
-                                       and call_name(x) == '_convert' for x in vals_)
-        return False
-    okc = bool(calls) and all(_is_conv(r) for r in return_nodes(gcv))
-    ck.ob(R5, cv.fid, ok and okc,
-          "convert() returns _convert()'s value and re-raises its ValueError" if ok and okc else
-          "convert() swallows the error of _convert() or returns something else", cv, cv.node)
+        def _is_conv(r):
+            v = r.ast.value
+            if isinstance(v, ast.Call) and call_name(v) == '_convert':
+                return True
+            if isinstance(v, ast.Name):
+                vals_ = rdcv.value_exprs(r, v.id)
+                return bool(vals_) and all(not isinstance(x, str) and isinstance(x, ast.Call)
+                                           and call_name(x) == '_convert' for x in vals_)
+            return False
+        okc = bool(calls) and all(_is_conv(r) for r in return_nodes(gcv))
+        ck.ob(R5, cv.fid, ok and okc,
+              "convert() returns _convert()'s value and re-raises its ValueError" if ok and okc else
+              "convert() swallows the error of _convert() or returns something else", cv, cv.node)
 
-    # ---- R19.6 renderers
-    for fname in ('timestr', 'timestr_approx'):
-        fi = prog.func(f"{TU}:{fname}")
-        gr = ck.cfg(fi.fid, 'M0')
-        divs = []
-        for n in sorted(gr.nodes, key=lambda n: (n.lineno or 0)):
-            if n.kind == 'stmt' and isinstance(n.ast, ast.Assign) and isinstance(n.ast.value, ast.Call) \
-                    and call_name(n.ast.value) == 'divmod' and isinstance(n.ast.targets[0], ast.Tuple):
-                try:
-                    d = fold(prog, mod, n.ast.value.args[1])
-                except Unfoldable:
-                    d = None
-                q, r = [norm(e) for e in n.ast.targets[0].elts]
-                divs.append((q, r, norm(n.ast.value.args[0]), d, n))
-        seq = [d[3] for d in divs]
-        ok = seq == [86400, 3600, 60]
-        chain = ok and divs[1][2] == divs[0][1] and divs[2][2] == divs[1][1]
-        ck.ob(R6, f"{fi.fid} :: divisors", ok and chain,
-              f"divmod divisors {seq}; each step divides the previous remainder" if ok and chain else
-              f"divmod divisors are {seq} (expected [86400, 3600, 60], each applied to the "
-              f"previous remainder)", fi, divs[0][4].ast if divs else fi.node)
-        if not (ok and chain):
-            continue
-        want = {divs[0][0]: 'd', divs[1][0]: 'h', divs[2][0]: 'm', divs[2][1]: 's'}
-        found = {}
-        for n in own_nodes(fi.node):
-            if isinstance(n, ast.JoinedStr) and len(n.values) >= 2 and \
-                    isinstance(n.values[-1], ast.Constant) and isinstance(n.values[0], ast.FormattedValue):
-                suffix = n.values[-1].value
-                var = n.values[0].value
-                if isinstance(var, ast.Call) and call_name(var) == 'int' and var.args:
-                    var = var.args[0]
-                if isinstance(var, ast.Name) and var.id in want:
-                    found.setdefault(var.id, set()).add(suffix)
-        okl = all(found.get(v) == {u} for v, u in want.items())
-        ck.ob(R6, f"{fi.fid} :: unit letters", okl,
-              f"quotients/remainder are labelled {dict((v, sorted(s)) for v, s in found.items())}"
-              + ('' if okl else f"; expected {want}"), fi, fi.node)
-        neg = nodes_where(gr, lambda n: isinstance(n.ast, ast.Raise) and
-                          gr.has_guard(n, f'{fi.node.args.args[0].arg} < 0', True), kinds=('stmt',))
-        ck.ob(R6, f"{fi.fid} :: negative refused", bool(neg),
-              "a negative number of seconds raises" if neg else
-              "negative input is not refused", fi, fi.node)
+    with ck.section('R19.6'):
+        # ---- R19.6 renderers
+        for fname in ('timestr', 'timestr_approx'):
+            fi = prog.func(f"{TU}:{fname}")
+            gr = ck.cfg(fi.fid, 'M0')
+            divs = []
+            for n in sorted(gr.nodes, key=lambda n: (n.lineno or 0)):
+                if n.kind == 'stmt' and isinstance(n.ast, ast.Assign) and isinstance(n.ast.value, ast.Call) \
+                        and call_name(n.ast.value) == 'divmod' and isinstance(n.ast.targets[0], ast.Tuple):
+                    try:
+                        d = fold(prog, mod, n.ast.value.args[1])
+                    except Unfoldable:
+                        d = None
+                    q, r = [norm(e) for e in n.ast.targets[0].elts]
+                    divs.append((q, r, norm(n.ast.value.args[0]), d, n))
+            seq = [d[3] for d in divs]
+            ok = seq == [86400, 3600, 60]
+            chain = ok and divs[1][2] == divs[0][1] and divs[2][2] == divs[1][1]
+            ck.ob(R6, f"{fi.fid} :: divisors", ok and chain,
+                  f"divmod divisors {seq}; each step divides the previous remainder" if ok and chain else
+                  f"divmod divisors are {seq} (expected [86400, 3600, 60], each applied to the "
+                  f"previous remainder)", fi, divs[0][4].ast if divs else fi.node)
+            if not (ok and chain):
+                continue
+            want = {divs[0][0]: 'd', divs[1][0]: 'h', divs[2][0]: 'm', divs[2][1]: 's'}
+            found = {}
+            for n in own_nodes(fi.node):
+                if isinstance(n, ast.JoinedStr) and len(n.values) >= 2 and \
+                        isinstance(n.values[-1], ast.Constant) and isinstance(n.values[0], ast.FormattedValue):
+                    suffix = n.values[-1].value
+                    var = n.values[0].value
+                    if isinstance(var, ast.Call) and call_name(var) == 'int' and var.args:
+                        var = var.args[0]
+                    if isinstance(var, ast.Name) and var.id in want:
+                        found.setdefault(var.id, set()).add(suffix)
+            okl = all(found.get(v) == {u} for v, u in want.items())
+            ck.ob(R6, f"{fi.fid} :: unit letters", okl,
+                  f"quotients/remainder are labelled {dict((v, sorted(s)) for v, s in found.items())}"
+                  + ('' if okl else f"; expected {want}"), fi, fi.node)
+            neg = nodes_where(gr, lambda n: isinstance(n.ast, ast.Raise) and
+                              gr.has_guard(n, f'{fi.node.args.args[0].arg} < 0', True), kinds=('stmt',))
+            ck.ob(R6, f"{fi.fid} :: negative refused", bool(neg),
+                  "a negative number of seconds raises" if neg else
+                  "negative input is not refused", fi, fi.node)
